@@ -31,11 +31,40 @@ RULE = ("specific-yield parameter sets of both kinds x increasing grids inside, 
         "datasets; non-trivial = grid of at least 3 levels; distinct by (parameters, grid)")
 
 
+def check_sy_is_the_parameter_sets(ctx, sy, params, grid, inp):
+    """PEATCLSM parameter sets: the function that is integrated is the one the parameters define (model
+    peatclsmKnots/pwl at Float, as in C16), whatever was constructed earlier in the process."""
+    from . import c16
+    import scipy.stats
+    p = params["specific_yield"]
+    if p.get("type") != "peatclsm":
+        return True
+    ob = "specific yield integrated by the simulation = model peatclsmKnots/pwl of the same parameter set (1e-9)"
+    zk = 0.5 * (np.linspace(-1, 1, 201) + np.linspace(-0.99, 1.01, 201))
+    cdf = [float(v) for v in scipy.stats.norm.cdf(zk, loc=0, scale=float(p["sd"]))]
+    xs = [float(x) for x in list(grid)[:3] + [ctx.rng.uniform(-900.0, 900.0) for _ in range(4)] if -990.0 < x < 1000.0]
+    if not xs:
+        return True
+    _k, ref = c16.model_sy(ctx, {k: float(v) for k, v in p.items() if k != "type"}, cdf, xs)
+    got = [float(sy(x)) for x in xs]
+    bad = [(x, g, r) for x, g, r in zip(xs, got, ref) if abs(g - r) > 1e-9 * max(1.0, abs(r))]
+    ctx.obligation(ob, not bad)
+    if bad:
+        ctx.violation("impl-violation", "c17Holds", {"input": inp, "impl": got, "model": ref, "oracle": {
+            "name": "c17Holds", "result": False,
+            "witness": {"why": "the simulated storage is the integral of a specific yield other than the parameter set's",
+                        "level_mm": bad[0][0], "specific_yield_used": bad[0][1], "specific_yield_of_parameters": bad[0][2]}}})
+    return not bad
+
+
 def check_curve(ctx, sy, grid, mean, inp):
     import spowtd.simulate_rise as sr
     ob = "compute_rise_curve = model riseCurve at Float on the recorded integrals"
+    if "parameters" in inp and not check_sy_is_the_parameter_sets(ctx, sy, inp["parameters"], grid, inp):
+        return [float(v) for v in sr.compute_rise_curve(sy, np.array(grid, dtype=float), mean)]
     g = np.array(grid, dtype=float)
     with sim.record_integrate(sy) as calls:
+        sim.dirty_heap(ctx.rng, len(g))
         W = [float(v) for v in sr.compute_rise_curve(sy, g, mean)]
     m = ctx.driver.call("curve.f", {"grid": [f2h(x) for x in grid], "cells": [f2h(c[2]) for c in calls], "mean": f2h(mean)})
     cum = [h2f(v) for v in m["cumulative"]]
@@ -78,8 +107,15 @@ def run(ctx):
     warnings.simplefilter("ignore")
     rng = ctx.rng
     nsets, ncli = (12, 3) if ctx.tier == "quick" else (200, 40)
+    sweep = None
     for k in range(nsets):
         params = sim.spline_params(rng, -300.0, 100.0) if k % 3 else sim.peatclsm_params(rng, 100.0)
+        if k % 6 == 0:
+            sweep = params
+        elif k % 6 == 3:
+            # a sensitivity sweep in one session: same soil as an earlier set, another microtopography
+            params = {"specific_yield": dict(sweep["specific_yield"], sd=round(rng.uniform(0.05, 1.0), 3)),
+                      "transmissivity": dict(sweep["transmissivity"])}
         sy, _T = sim.make_functions(params)
         knots = params["specific_yield"].get("zeta_knots_mm", [-995.0, 1005.0])
         lo, hi = knots[0], knots[-1]
@@ -147,7 +183,8 @@ def run(ctx):
 def replay(ctx, doc):
     common.import_spowtd()
     inp = doc["input"]
-    if "grid" in inp:
+    why = str(((doc.get("oracle") or {}).get("witness") or {}).get("why", ""))
+    if "grid" in inp and "other than the parameter set's" not in why:   # (that one depends on the session's history)
         sy, _T = sim.make_functions(inp["parameters"])
         before = len(ctx.violations)
         check_curve(ctx, sy, inp["grid"], inp["mean"], inp)
